@@ -18,7 +18,26 @@ def build(repo="/repo"):
     open(os.path.join(d, "Cargo.toml"), "w").write(
         open(os.path.join(VERIF, "bounded", "Cargo.toml.in")).read().replace("@REPO@", repo))
     for f in os.listdir(os.path.join(VERIF, "bounded", "src")):
-        shutil.copy(os.path.join(VERIF, "bounded", "src", f), os.path.join(d, "src", f))
+        txt = open(os.path.join(VERIF, "bounded", "src", f)).read().replace("@REPO@", repo)
+        dst = os.path.join(d, "src", f)
+        if not os.path.exists(dst) or open(dst).read() != txt:
+            open(dst, "w").write(txt)
+    # the text of `fn encode_generate_code_request` of <repo>/slicec/src/main.rs (a private fn of the binary
+    # crate), extracted mechanically on every build; `oracle_request.rs` include!s it
+    try:
+        sys.path.insert(0, os.path.join(VERIF, "tools"))
+        import rsx
+        msrc = open(os.path.join(repo, "slicec", "src", "main.rs")).read()
+        found = rsx.find_items(msrc, rsx.tokenize(msrc), "fn encode_generate_code_request")
+        if len(found) != 1:
+            return None, "encode_generate_code_request not found exactly once in slicec/src/main.rs"
+        s0, e0, _, _ = found[0]
+        ftxt = "// EXTRACTED from %s/slicec/src/main.rs -- do not edit\n%s\n" % (repo, msrc[s0:e0])
+        dst = os.path.join(d, "src", "request_fn.rs")
+        if not os.path.exists(dst) or open(dst).read() != ftxt:
+            open(dst, "w").write(ftxt)
+    except Exception as ex:  # noqa: BLE001
+        return None, f"cannot extract encode_generate_code_request: {ex}"
     lock = os.path.join(repo, "Cargo.lock")
     if os.path.exists(lock) and not os.path.exists(os.path.join(d, "Cargo.lock")):
         shutil.copy(lock, os.path.join(d, "Cargo.lock"))
